@@ -63,6 +63,7 @@ pub fn configs(prop: &str, tier: Tier, seed: u64) -> Vec<Entry> {
         "C14" => crate::props::c14::configs_c14(tier, seed),
         "C15" => crate::props::c14::configs_c15(tier, seed),
         "C16" => crate::props::c14::configs_c16(tier, seed),
+        "C18" => crate::props::c02::configs_c18(tier, seed),
         "C10" => crate::props::c10::configs(tier, seed),
         _ => vec![],
     }
